@@ -127,7 +127,8 @@ def record_one(job):
         gens.append(JakesSampleGenerator(Fd, Ts, L, shape_arg(sh0, seed), np.random.RandomState(seed)))
     except Exception as ex:  # noqa
         return {"id": job["id"], "seed": seed, "budget": budget, "Ts": Ts, "FdTs": fdts, "L": L,
-                "ev": [{"op": "construct", "sh": list(sh0), "kept": True, "count": 0, "shape": [], "first": [-1, -1], "last": [-1, -1],
+                "ev": [{"op": "construct", "sh": list(sh0), "form": c14.FORMS[seed % 4] if len(sh0) == 1 else "",
+                        "kept": True, "count": 0, "shape": [], "first": [-1, -1], "last": [-1, -1],
                         "ph": 0, "inner": False, "exc": f"{type(ex).__name__}: {ex}"[:200]}]}
     stream.append("rs")
     count.append(0)
@@ -202,6 +203,7 @@ def record_one(job):
                 gens[g].shape = shape_arg(sh, seed + ndraw)
             except Exception as ex:  # noqa
                 ev.append({"op": "setshape", "g": g + 1, "sh": list(sh), "same": False, "kept": kept(),
+                           "form": c14.FORMS[(seed + ndraw) % 4] if len(sh) == 1 else "",
                            "exc": f"{type(ex).__name__}: {ex}"[:200]})
                 break
             shapes[g] = sh
@@ -247,7 +249,7 @@ def record(ctx):
 def _cfg():
     from . import c14
     defs = {"ShapeSet": "{}", "Shape0": "{}", "Dev": tlc.tla({k: False for k in c14.DEVS})}
-    cons = {"Kind": '"jakes"', "GenSizes": "{}", "SkipSizes": "{}", "BigReps": "{}", "Warm": "{0}", "MaxLen": "1000",
+    cons = {"Kind": '"jakes"', "FormSalt": "0", "GenSizes": "{}", "SkipSizes": "{}", "BigReps": "{}", "Warm": "{0}", "MaxLen": "1000",
             "MaxGens": "2", "GenDefault": "TRUE", "Lattice": "FALSE", "L": "1", "FdQ": "0"}
     cfg = tlc.cfg_text(constants=cons, defs=defs, init="TInit", next_="TNext",
                        invariants=["Conforms", "TypeOK", "Count", "Aligned", "OnGrid", "PhasesFixed", "Independent", "BuffersDistinct"])
@@ -332,6 +334,9 @@ def validate(ctx, traces, control=True):
         elif (m["field"] in ("inner", "first", "last", "phases") and e["op"] in ("gen", "gendefault")
               and c14.is_step_rounded_finding(hist, e.get("errq", -1.0) if e.get("errq", -1.0) >= 0 else None)):
             ctx.finding("ArangeStepRounded", what + f" [max error {e['errq']:.2f} x tolerance]", case)
+        elif (e["op"] in ("construct", "setshape") and e.get("form") == "npint" and exc.startswith("TypeError")
+              and "iterable" in exc):
+            ctx.finding("NumpyIntShapeRejected", what, case)
         else:
             ctx.violation(what, case)
     ctx.notes["traces_recorded"] = len(traces)
